@@ -29,6 +29,19 @@ package fox
 //@ pred isIgnore(fox *Router, r *http.Request) = st(fox, r) && tsrAllowed(r) && sn(fox, r).route.ignoreTrailingSlash
 //@ pred isRedirect(fox *Router, r *http.Request) = st(fox, r) && tsrAllowed(r) && !sn(fox, r).route.ignoreTrailingSlash && sn(fox, r).route.redirectTrailingSlash && reqPath(r) == CleanPath(reqPath(r))
 
+
+//@ -- ---------------------------------------------------------------- C11: the Allow list
+//@ -- allowed[j] records that the key of method root j was written to the Allow builder (set by the
+//@ -- ghost-set lines below at exactly the WriteString calls that write tree.root[i].key)
+//@ ghost var allowed [ref]bool
+//@ ghost var allowOpt bool
+//@ ghost var allowN int
+//@ ghost var allowW int
+//@ fun pt(fox *Router) *iTree = published[&fox.tree]
+//@ pred servedM(t *iTree, j int, host string, path string) = selNode(t, t.root[j].key, host, path) != nil && (!selTsr(t, t.root[j].key, host, path) || selNode(t, t.root[j].key, host, path).route.ignoreTrailingSlash)
+//@ pred unservedReq(fox *Router, r *http.Request) = !isDirect(fox, r) && !isIgnore(fox, r) && !isRedirect(fox, r)
+//@ pred autoOpt(fox *Router, r *http.Request) = r.Method == "OPTIONS" && fox.handleOptions
+
 //@ func (*Router).ServeHTTP props C08,C11,C12,C17 partial
 //@   requires fox != nil && r != nil && r.URL != nil && published[&fox.tree] != nil
 //@   requires fresh-writer: wFinal[w] == 0 && wBody[w] == 0
@@ -44,6 +57,43 @@ package fox
 //@   ensures options: hScope == OptionsHandler ==> hFn == old(fox.autoOptions) && old(r.Method == "OPTIONS" && fox.handleOptions)
 //@   ensures no-method: hScope == NoMethodHandler ==> hFn == old(fox.noMethod) && old(fox.handleMethodNotAllowed && !(r.Method == "OPTIONS" && fox.handleOptions))
 //@   ensures no-route: hScope == NoRouteHandler ==> hFn == old(fox.noRoute)
+//@   requires @C11 root-keys: forall j int :: {pt(fox).root[j]} 0 <= j && j < len(pt(fox).root) ==> pt(fox).root[j] != nil && len(pt(fox).root[j].key) > 0
+//@   requires @C11 fresh-allow: !allowOpt && allowN == 0 && forall j int :: {allowed[j]} !allowed[j]
+//@   modifies allowed, allowOpt, allowN, allowW
+//@   ghost-set after (*Builder).WriteString#2 : allowed[i] = true
+//@   ghost-set after (*Builder).WriteString#2 : allowN = allowN + 1
+//@   ghost-set after (*Builder).WriteString#2 : allowW = i
+//@   ghost-set after (*Builder).WriteString#4 : allowed[i#2] = true
+//@   ghost-set after (*Builder).WriteString#4 : allowN = allowN + 1
+//@   ghost-set after (*Builder).WriteString#4 : allowW = i#2
+//@   ghost-set after (*Builder).WriteString#6 : allowOpt = true
+//@   ghost-set after (*Builder).WriteString#8 : allowed[i#3] = true
+//@   ghost-set after (*Builder).WriteString#8 : allowN = allowN + 1
+//@   ghost-set after (*Builder).WriteString#8 : allowW = i#3
+//@   assert-at call (*Builder).WriteString#2 : @C11 writes-key: same(arg_s, tree.root[i].key)
+//@   assert-at call (*Builder).WriteString#4 : @C11 writes-key: same(arg_s, tree.root[i#2].key)
+//@   assert-at call (*Builder).WriteString#6 : @C11 writes-options: arg_s == "OPTIONS"
+//@   assert-at call (*Builder).WriteString#8 : @C11 writes-key: same(arg_s, tree.root[i#3].key)
+//@   assert-at call (*iTree).lookup#2 : @C11 same-request: same(arg_method, tree.root[i#2].key) && same(arg_hostPort, r.Host) && same(arg_path, reqPath(r)) && arg_lazy
+//@   assert-at call (*iTree).lookup#3 : @C11 same-request: same(arg_method, tree.root[i#3].key) && same(arg_hostPort, r.Host) && same(arg_path, reqPath(r)) && arg_lazy
+//@   ensures @C11 allow-405: hScope == NoMethodHandler ==> forall j int :: {allowed[j]} 0 <= j && j < old(len(pt(fox).root)) ==> (allowed[j] <==> old(pt(fox).root[j].key != r.Method && servedM(pt(fox), j, r.Host, reqPath(r))))
+//@   ensures @C11 iff-405: old(unservedReq(fox, r) && !autoOpt(fox, r) && fox.handleMethodNotAllowed) ==> (hScope == NoMethodHandler <==> allowN > 0)
+//@   ensures @C11 sem-405: old(unservedReq(fox, r) && !autoOpt(fox, r) && fox.handleMethodNotAllowed) ==> (allowN > 0 <==> old(exists j int :: {pt(fox).root[j]} 0 <= j && j < len(pt(fox).root) && pt(fox).root[j].key != r.Method && servedM(pt(fox), j, r.Host, reqPath(r))))
+//@   ensures @C11 allow-options: hScope == OptionsHandler && old(reqPath(r) != "*") ==> allowOpt && forall j int :: {allowed[j]} 0 <= j && j < old(len(pt(fox).root)) ==> (allowed[j] <==> old(servedM(pt(fox), j, r.Host, reqPath(r))))
+//@   ensures @C11 allow-options-star: hScope == OptionsHandler && old(reqPath(r) == "*") ==> allowOpt && forall j int :: {allowed[j]} 0 <= j && j < old(len(pt(fox).root)) ==> (allowed[j] <==> old(pt(fox).root[j].key != "OPTIONS" && len(pt(fox).root[j].children) > 0))
+//@   ensures @C11 iff-options: old(unservedReq(fox, r) && autoOpt(fox, r)) ==> (hScope == OptionsHandler <==> allowN > 0)
+//@   ensures @C11 sem-options: old(unservedReq(fox, r) && autoOpt(fox, r) && reqPath(r) != "*") ==> (allowN > 0 <==> old(exists j int :: {pt(fox).root[j]} 0 <= j && j < len(pt(fox).root) && servedM(pt(fox), j, r.Host, reqPath(r))))
+//@   ensures @C11 sem-options-star: old(unservedReq(fox, r) && autoOpt(fox, r) && reqPath(r) == "*") ==> (allowN > 0 <==> old(exists j int :: {pt(fox).root[j]} 0 <= j && j < len(pt(fox).root) && pt(fox).root[j].key != "OPTIONS" && len(pt(fox).root[j].children) > 0))
+//@   ensures @C11 options-falls-to-404: old(unservedReq(fox, r) && autoOpt(fox, r)) ==> hScope == OptionsHandler || hScope == NoRouteHandler
+//@   loop 1: invariant @C11 tree == pt(fox) && i <= len(tree.root) && same(path, reqPath(r)) && !allowOpt && (forall j int :: {allowed[j]} {tree.root[j]} 0 <= j && j < i ==> (allowed[j] <==> (tree.root[j].key != "OPTIONS" && len(tree.root[j].children) > 0))) && (forall j int :: {allowed[j]} j < 0 || j >= i ==> !allowed[j])
+//@   loop 1: invariant @C11 keys1: forall j int :: {tree.root[j]} 0 <= j && j < len(tree.root) ==> tree.root[j] != nil && len(tree.root[j].key) > 0
+//@   loop 1: invariant @C11 sb1: (sbLen[&sb] > 0 <==> allowN > 0) && sbLen[&sb] >= 0 && allowN >= 0 && (allowN > 0 ==> 0 <= allowW && allowW < i && allowed[allowW]) && (allowN == 0 ==> forall j int :: {allowed[j]} !allowed[j])
+//@   loop 2: invariant @C11 tree == pt(fox) && i#2 <= len(tree.root) && same(path, reqPath(r)) && !allowOpt && (forall j int :: {allowed[j]} {tree.root[j]} 0 <= j && j < i#2 ==> (allowed[j] <==> servedM(tree, j, r.Host, path))) && (forall j int :: {allowed[j]} j < 0 || j >= i#2 ==> !allowed[j])
+//@   loop 2: invariant @C11 keys2: forall j int :: {tree.root[j]} 0 <= j && j < len(tree.root) ==> tree.root[j] != nil && len(tree.root[j].key) > 0
+//@   loop 2: invariant @C11 sb2: (sbLen[&sb] > 0 <==> allowN > 0) && sbLen[&sb] >= 0 && allowN >= 0 && (allowN > 0 ==> 0 <= allowW && allowW < i#2 && allowed[allowW]) && (allowN == 0 ==> forall j int :: {allowed[j]} !allowed[j])
+//@   loop 3: invariant @C11 tree == pt(fox) && i#3 <= len(tree.root) && same(path, reqPath(r)) && !allowOpt && (forall j int :: {allowed[j]} {tree.root[j]} 0 <= j && j < i#3 ==> (allowed[j] <==> (tree.root[j].key != r.Method && servedM(tree, j, r.Host, path)))) && (forall j int :: {allowed[j]} j < 0 || j >= i#3 ==> !allowed[j])
+//@   loop 3: invariant @C11 keys3: forall j int :: {tree.root[j]} 0 <= j && j < len(tree.root) ==> tree.root[j] != nil && len(tree.root[j].key) > 0
+//@   loop 3: invariant @C11 sb3: (sbLen[&sb#2] > 0 <==> allowN > 0) && sbLen[&sb#2] >= 0 && allowN >= 0 && (allowN > 0 ==> 0 <= allowW && allowW < i#3 && allowed[allowW]) && (allowN == 0 ==> forall j int :: {allowed[j]} !allowed[j])
 //@   loop 1: invariant 0 <= i && c != nil && c.params != nil && !c.tsr && c.route == nil && len(*c.params) == 0 && c.req == r && c.scope == RouteHandler
 //@   loop 2: invariant 0 <= i#2 && c != nil && c.params != nil && c.tsrParams != nil && c.skipNds != nil && !c.tsr && c.route == nil && len(*c.params) == 0 && c.req == r && c.scope == RouteHandler
 //@   loop 3: invariant 0 <= i#3 && c != nil && c.params != nil && c.tsrParams != nil && c.skipNds != nil && !c.tsr && c.route == nil && len(*c.params) == 0 && c.req == r && c.scope == RouteHandler
